@@ -221,6 +221,9 @@ inductive Val
   this workbook (fresh or existing — the style registry is C17's), `nfMem` = the id of the default date style the
   in-memory `SetCellValue` picks for this value (`getTimeNumFmt`: 14, 17 or 22) -/
   | time (isNum : Bool) (text : Bytes) (nf nfMem : Int)
+  /-- `time.Duration`: `text` = `FormatFloat(seconds/86400, 'f', -1, 32)` (`setCellDuration`); the stream writer assigns no
+  style, `nfMem` = the id of the default duration style the in-memory `SetCellValue` adds (`getDurationNumFmt`: 20, 21 or 46) -/
+  | dur (text : Bytes) (nfMem : Int)
   deriving DecidableEq, Repr
 
 /-- one element of the `values` slice -/
@@ -277,6 +280,7 @@ def setCellVal (x : Ext) (c : XC) : Val → Except E XC
       .ok { c with t := lit "inlineStr", v := [], is := .text cut (needSpace cut) }
   | .rich xml => .ok { c with t := lit "inlineStr", is := .runs xml }
   | .richErr => .error .richText
+  | .dur text _ => .ok { c with t := [], v := text }
   | .time isNum text nf _ =>
     -- `setCellTime`: `setCellDefault` of the serial number, default date-time format when the cell has no style;
     -- a time that is not a positive serial is stored as its RFC 3339 text (inline string, written raw: the text has
@@ -625,10 +629,12 @@ def valObs : Val → Kind × Bytes
   | .rich xml => (.text, xml)
   | .richErr => (.blank, [])
   | .time isNum text _ _ => (if isNum then .number else .text, text)
+  | .dur text _ => (.number, text)
 
 /-- the default date style `SetCellValue` adds to a time stored as a number when the cell has no style of its own -/
 def valStyle : Val → Int → Int
   | .time true _ _ nfMem, s => if s = 0 then nfMem else s
+  | .dur _ nfMem, s => if s = 0 then nfMem else s
   | _, s => s
 
 /-- the cell the in-memory calls leave at a position: `SetCellValue`, then
